@@ -8,8 +8,8 @@ CLAIMED = {
     # id: (technique, level text, level_note, design_ref)
     "C13": (
         "bounded symbolic execution of annotation.py with CrossHair/z3 (positions symbolic in +-2^40), per-base reference model, reachability twins, concrete replay",
-        "Bounded model checking of the real Annotation/AnnotatedSequence code: for every obligation CrossHair explores all paths of the pure-Python integer logic with symbolic positions, slice bounds, strands and defect flags and z3 shows the per-base model assertion cannot fail ('Confirmed over all paths'), or returns inputs that are replayed on the plain interpreter. Bounds: <= 2 locations / 2 features per obligation, sequence of 6 bases, sequence_start <= 2^30.",
-        "Trusted: CrossHair's int/bool/container models and z3; numpy slicing of the 6-base sequence (symbolic offsets are case-split exhaustively); the per-base model in obligations/c13_annot.py. Outside: > 2 locations per feature, > 2 features, sequences other than the fixed 6-base one.",
+        "Bounded model checking of the real Annotation/AnnotatedSequence code: for every obligation CrossHair explores all paths of the pure-Python integer logic with symbolic positions, slice bounds, strands and defect flags and z3 shows the per-base model assertion cannot fail ('Confirmed over all paths'), or returns inputs that are replayed on the plain interpreter. Bounds: <= 2 locations / 2 features per obligation, sequence of 6 bases, sequence_start <= 2^30. E-class additions (SX case split): equality / hashing / qualifier independence of locations and features; feature indexing, assignment and reverse complement over a sequence of all 15 IUPAC letters with disjoint and nested locations.",
+        "Trusted: CrossHair's int/bool/container models and z3; numpy slicing of the 6-base sequence (symbolic offsets are case-split exhaustively); the per-base model in obligations/c13_annot.py. Outside: > 2 locations per feature, > 2 features, sequences other than the fixed 6-base one and the 15-letter IUPAC one.",
         "DESIGN.md §4 C13"),
 }
 
@@ -21,13 +21,13 @@ CLAIMED["C06"] = (
 
 CLAIMED["C12"] = (
     "SX symbolic execution of the transformed GenBank-location, FASTQ and GFF3 code over symbolic positions, scores and characters (z3 decides branches and the round-trip assertion; concrete replay on the unmodified modules); edit histories of GenBankFile/FastaFile by solver-driven case split",
-    "Bounded model checking: (1) GenBank location strings: format->parse identity for symbolic positions up to 10^5 (10^8) with every expressible defect/strand combination, 1-2 locations; (2) FASTQ: write->read identity with every score symbolic over the full valid range of both offsets (so '@' and '+' may start any line), wrapping 1-3/None, 2 entries, edits; (3) GFF3: one symbolic field (value/key/seqid/source, length <= 3 (4)) through percent quoting and the line parser; (4) all edit sequences of length 2 (3) on GenBankFile vs a list model incl. out-of-range indices; (5) FASTA objects/convert on a sequence menu; (6) annotations through the GenBank feature table and GFF3 (15-character keys, joins with mixed strands, every defect, qualifiers with spaces / slashes / '=' / several values / no value, annotated sequences with a sequence start).",
-    "Trusted: SStr/SInt models (validated against CPython/urllib on every run), z3. Stubs: numpy int8<->bytes score conversion -> +-offset arithmetic; file objects -> symbolic text buffer; urllib quote/unquote -> models. Outside: the GenBank qualifier regex on symbolic text (menus only), GenPept, sequences/headers beyond the menus, non-ASCII. One known finding (GFF3 trailing blank in the last column).",
+    "Bounded model checking: (1) GenBank location strings: format->parse identity for symbolic positions up to 10^5 (10^8) with every expressible defect/strand combination, 1-2 locations; (2) FASTQ: write->read identity with every score symbolic over the full valid range of both offsets (so '@' and '+' may start any line), wrapping 1-3/None, 2 entries, edits; (3) GFF3: one symbolic field (value/key/seqid/source, length <= 3 (4)) through percent quoting and the line parser; (4) all edit sequences of length 2 (3) on GenBankFile vs a list model incl. out-of-range indices; (5) FASTA objects/convert on a sequence menu; (6) annotations through the GenBank feature table and GFF3 (15-character keys, joins with mixed strands, every defect, qualifiers with spaces / slashes / '=' / several values / no value, annotated sequences with a sequence start, GenPept proteins with stop symbols); (7) all edit sequences of length 2 (3) on GFFFile incl. directives; FASTA headers from a menu with '>' / ';' / tabs / surrounding blanks.",
+    "Trusted: SStr/SInt models (validated against CPython/urllib on every run), z3. Stubs: numpy int8<->bytes score conversion -> +-offset arithmetic; file objects -> symbolic text buffer; urllib quote/unquote -> models. Outside: the GenBank qualifier regex on symbolic text (menus only), sequences/headers beyond the menus, non-ASCII. One known finding (GFF3 trailing blank in the last column).",
     "DESIGN.md §4 C12")
 
 CLAIMED["C20"] = (
     "bounded symbolic exploration of call sequences x environment behaviours: op-codes and the external program's behaviour (launch failure, hang, exit code, output kind and order) are z3 variables forked by the SX explorer over the unmodified application package with a stubbed Popen; oracle = documented life-cycle automaton + resource assertions",
-    "Bounded model checking of the wrapper life cycle: every call sequence up to the bound over 10 API calls, for every behaviour of the external program, is executed on the real ClustalOmegaApp/MafftApp/MuscleApp/Muscle5App code (process replaced by a nondeterministic stub); after every call the state, the success/AppStateError outcome, the results, clean_up count, temp files, child process and working directory are compared with the automaton. Bounds: length 3 (ClustalOmega) / 2 (others) quick, 4 thorough; 3 input sequences.",
+    "Bounded model checking of the wrapper life cycle: every call sequence up to the bound over 12 API calls (incl. the output getters), for every behaviour of the external program, is executed on the real ClustalOmegaApp/MafftApp/MuscleApp/Muscle5App code (process replaced by a nondeterministic stub); after every call the state, the success/AppStateError outcome, the results, clean_up count, temp files, child process and working directory are compared with the automaton. Bounds: length 3 (ClustalOmega) / 2 (others) quick, 4 / 3 thorough; 3 input sequences; the program may fail with an error code, a signal or 255 before or after writing output, write garbage or nothing, or remove its output files; a launch may fail with OSError, ValueError or TypeError. E-class: generic polling join, > 10 sequences, user-defined alphabets.",
     "Trusted: the FakePopen stub as a model of subprocess (poll/communicate/kill/TimeoutExpired); the automaton in obligations/sx_c20.py. Outside: WebApp, real process timing races, join() without timeout on a hanging program, applications other than the four MSA wrappers, map_sequence/map_matrix.",
     "DESIGN.md §4 C20")
 
@@ -38,13 +38,13 @@ CLAIMED["C02"] = (
     "DESIGN.md §4 C02")
 CLAIMED["C07"] = (
     "KX: hybrid36.pyx lowered from source and executed over a symbolic number / symbolic string with z3 (all values at widths 4 and 5); record layout and round trip by solver-driven case split on boundary menus through the real PDBFile code against a column table written from the PDB specification",
-    "Bounded model checking. Hybrid-36 (S): for widths 4 and 5, decode(encode(n)) == n with correct width and alphabet for ALL n in 0..max, every int32 outside the range is refused, encode(decode(s)) == s for ALL strings over the alphabet with a leading letter. Records (E): 4 atoms, 1-2 models, boundary coordinates (+-999.999, 9999.999, values that round over the limit, NaN) at any atom/axis/model, boundary B-factors/occupancies, atom-name/element shapes, ids at wrap points and in the hybrid-36 range, charges, CONECT bonds, box: every ATOM/HETATM record has 80 columns with each field in its standard column or the input is refused; reading back reproduces the input to format precision.",
+    "Bounded model checking. Hybrid-36 (S): for widths 4 and 5, decode(encode(n)) == n with correct width and alphabet for ALL n in 0..max, every int32 outside the range is refused, encode(decode(s)) == s for ALL strings over the alphabet with a leading letter. Records (E): 4 atoms, 1-2 models, boundary coordinates (+-999.999, 9999.999, values that round over the limit, NaN) at any atom/axis/model, boundary B-factors/occupancies, atom-name/element shapes, ids at wrap points and in the hybrid-36 range, charges, CONECT bonds (also between chains and with hybrid-36 serials), blank chain identifiers, all-HETATM models, box (also with full-width CRYST1 fields): every ATOM/HETATM record has 80 columns with each field in its standard column or the input is refused; reading back reproduces the input to format precision.",
     "Trusted: lowering + int-mode runtime (validated against the compiled module per run), SX string/int rendering model, numpy, z3. Outside: the float formatting of Python itself (format widths are observed on the written lines, not reasoned about symbolically), REMARK/assembly parsing, more than 4 atoms, non-increasing or negative atom ids together with CONECT records.",
     "DESIGN.md §4 C07")
 
 CLAIMED["C03"] = (
     "KX: codec.pyx and kmeralphabet.pyx kernels lowered from source over symbolic bytes/codes (bit-vectors with a z3 array for the 256-entry table; mathematical ints for the radix arithmetic); alphabets, sequences, translation by solver-driven case split on the real classes against independent oracles (IUPAC table, NCBI table 1, ORF definition)",
-    "Bounded model checking. Codec: for alphabets of <= 3 (5) symbolic distinct bytes and <= 2 (3) symbolic symbols/codes over all 256 byte values, decode(encode(s)) == s, foreign symbols and codes >= |A| raise, map_sequence_code is exact and rejects out-of-range codes. K-mers: code = radix sum incl. the rolling update, split inverts it, illegal codes raise (|A| in {2,4,5,20}, k <= 4, spaced models). E-class: 14 alphabets x all pairs for mappers/extends/common_alphabet; all nucleotide/protein sequences up to length 3 (4) vs Python strings and the IUPAC pairing; all 64 codons and all sequences start+4 (7) bases: ORFs vs definition, derived codon tables leave their parent unchanged.",
+    "Bounded model checking. Codec: for alphabets of <= 3 (5) symbolic distinct bytes and <= 2 (3) symbolic symbols/codes over all 256 byte values, decode(encode(s)) == s, foreign symbols and codes >= |A| raise, map_sequence_code is exact and rejects out-of-range codes. K-mers: code = radix sum incl. the rolling update, split inverts it, illegal codes raise (|A| in {2,4,5,20}, k <= 4, spaced models). E-class: 18 alphabets (incl. 256 / 257 / 65536 / 65537 symbols) x all pairs for mappers/extends/common_alphabet, symbols given as lists, tuples, iterators, generators; all nucleotide/protein sequences up to length 3 (4) vs Python strings and the IUPAC pairing; all 64 codons and all sequences start+4 (7) bases: ORFs vs definition, derived codon tables leave their parent unchanged, start codons in two frames keep proteins and positions paired, ambiguous sequences are refused by translate().",
     "Trusted: lowering + typed runtime (validated against the compiled modules per run), z3, numpy in the E-class parts. Outside: alphabets beyond the menu, sequences longer than the bound, codon tables other than the default and 2 derived ones. Known finding: KmerAlphabet.fuse accepts code == |A|.",
     "DESIGN.md §4 C03")
 
@@ -74,7 +74,7 @@ CLAIMED["C01"] = (
 
 CLAIMED["C17"] = (
     "solver-driven case split over annotation patterns and bond graphs on the real segmentation code against a per-atom recomputation / union-find; KX: _find_connected lowered from bonds.pyx on a symbolic neighbour table (z3: visited == reachability closure)",
-    "Bounded model checking. Every annotation pattern on 0..4 (5) atoms generated by the 24 possible changes per boundary: starts, counts, masks, starts-for, positions, apply (scalar / float / array-valued with dtype), spread, iteration + concatenation, names equal the per-atom recomputation for residues and chains. Every bond graph on up to 4 (5) atoms: molecules == connected components, find_connected from every root. KX: for every symmetric neighbour table with <= 2 neighbours per atom on 2..3 (4) atoms and every root the lowered recursive search marks exactly the reachable atoms. Resource part: chains of 10..200000 atoms in fresh interpreters.",
+    "Bounded model checking. Every annotation pattern on 0..4 (5) atoms generated by the 24 possible changes per boundary: starts, counts, masks, starts-for, positions, apply (scalar / float / string / array-valued results with dtype, functions taking the axis as keyword, 2-D data without axis), spread (scalar and array-valued), iteration + concatenation, names equal the per-atom recomputation for residues and chains, independent of hetero flags; out-of-range indices are refused. Every bond graph on up to 4 (5) atoms: molecules == connected components, find_connected from every root. KX: for every symmetric neighbour table with <= 2 neighbours per atom on 2..3 (4) atoms and every root the lowered recursive search marks exactly the reachable atoms. Structures of 9000..12000 (70000) atoms with isolated atoms and long-range bonds vs union-find. Resource part: chains of 10..200000 atoms in fresh interpreters.",
     "Trusted: numpy (searchsorted, repeat ...) in the E-class parts, lowering + runtime for the KX part, z3. Outside: arrays longer than 5 atoms, neighbour tables with > 2 slots. Known finding: recursion depth of find_connected (SIGSEGV on a 200000-atom chain).",
     "DESIGN.md §4 C17")
 
